@@ -35,6 +35,10 @@ const maxRangeArrayLen = math.MaxInt32
 func (r Range) AsArray() []any {
 	// count the elements: a loop "while i <= r.e" never ends when r.e is the largest int
 	n := r.Len()
+	if n > maxRangeArrayLen {
+		// (Convert reports this as an error; a template can also reach the method as a property)
+		panic(typeErrorf("can't convert a range of %d elements to an array", n))
+	}
 	a := make([]any, 0, n)
 	for k := 0; k < n; k++ {
 		a = append(a, r.b+k)
